@@ -118,14 +118,15 @@ Inductive iirspec :=
 | IirLow (wp ws : Q)
 | IirHigh (wp ws : Q).
 
-Definition iir_spec (Fs lb : Q) (ub : option Q) : iirspec :=
-  let ubf := ub_frac Fs ub in
-  let lbf := lb_frac Fs lb in
+(* wp, ws from the two fractions of Nyquist (lines 418-434) *)
+Definition iir_of_fracs (lbf ubf : Q) : iirspec :=
   if Qltb 0 lbf && Qltb ubf 1 then
     IirBand lbf ubf (Qmax' (lbf - (1 # 10)) (1 # 1000)) (Qmin' (ubf + (1 # 10)) (999 # 1000))
   else if Qeq_bool lbf 0 then IirLow ubf (Qmin' (ubf + (1 # 10)) (9 # 10))
   else if Qeq_bool ubf 1 then IirHigh lbf (Qmax' (lbf - (1 # 10)) (1 # 10))
   else IirUnbound.
+Definition iir_spec (Fs lb : Q) (ub : option Q) : iirspec :=
+  iir_of_fracs (lb_frac Fs lb) (ub_frac Fs ub).
 
 (* ------------------------------------------------------------------ C. the axis of the output *)
 Record axis := mk_axis { ashape : list Z; adelta : Z; at0 : Z; aunit : unit }.
